@@ -438,7 +438,7 @@ func ruleCommitLeader() *Rule {
 	return &Rule{
 		ID: id,
 		Text: "Every store to Raft.commitIndex reachable from commitLoop writes the loop index i with, on every path, state = Leader ∧ term(log[i]) = currentTerm ∧ hasQuorum(matches); " +
-			"(COUNT-MATCH) matches is initialised to 1 inside the iteration for i and incremented only for followers with id ≠ self ∧ IsVoter[id] ∧ matchIndex ≥ i.",
+			"(COUNT-MATCH) matches is initialised inside the iteration for i — to 1 only on an edge taken when IsVoter[self] holds, to 0 otherwise: a leader can be a non-voter — and incremented only for followers with id ≠ self ∧ IsVoter[id] ∧ matchIndex ≥ i.",
 		Floor: 2,
 		Run: func(p *Program) []Obligation {
 			root := p.Func("(*Raft).commitLoop")
